@@ -90,6 +90,24 @@ Example C18_double_close_stale_harmless :
   is_open (track ops) 2 = true /\ running (run ops) 0 = true /\ refcount (run ops) 0 = 1.
 Proof. vm_compute. repeat split; reflexivity. Qed.
 
+(* A failed subscribe - Resource() for a resource discovery does not know (yet) -
+   leaves the factory exactly as it was: no reference is taken, nothing is started.
+   (All the theorems of this file quantify over every operation sequence, this
+   operation included.) *)
+Theorem C18_failed_subscribe_noop : forall ops1 ops2 r,
+  step (run ops1) (SubscribeUnknown r) = mkRes (run ops1) [] false /\
+  run (ops1 ++ SubscribeUnknown r :: ops2) = run (ops1 ++ ops2) /\
+  outs (ops1 ++ SubscribeUnknown r :: ops2) = outs (ops1 ++ ops2) /\
+  track (ops1 ++ SubscribeUnknown r :: ops2) = track (ops1 ++ ops2).
+Proof. exact Unknown.failed_subscribe_noop. Qed.
+Print Assumptions C18_failed_subscribe_noop.
+
+Example C18_failed_subscribe_inhabited :
+  let ops := [SubscribeUnknown 2; Subscribe 2; SubscribeUnknown 2; AddHandler 0 1 false; Close 0] in
+  refcount (run ops) 2 = 0 /\ running (run ops) 2 = false /\ generation (run ops) 2 = 1 /\
+  generation (run (ops ++ [Subscribe 2])) 2 = 2 /\ running (run (ops ++ [Subscribe 2])) 2 = true.
+Proof. vm_compute. repeat split; reflexivity. Qed.
+
 (* ------------------------------------------------------------------ *)
 (* 2. after the last close, the next subscription starts a fresh one   *)
 (* ------------------------------------------------------------------ *)
